@@ -280,6 +280,7 @@ def run(chk):
                     cfg, go, construct=f"heterogeneity[{eq_type}]")
 
     run_hyper_input(chk, E)
+    run_routing_with_batch(chk, E)
 
 
 def run_hyper_input(chk, E):
@@ -318,3 +319,39 @@ def run_hyper_input(chk, E):
                                     f"the value obtained with keys in order {list(outs[0][0])}: {str(outs[0][1])[:220]}")
             return "independent of the dictionary's key order"
         chk.run("C12.R8", f"{HYPER_MOD}:HYPERPINN.eval_nn", {"hyperparams": list(declared)}, go, construct="hyper-network input order")
+
+
+def run_routing_with_batch(chk, E):
+    """R9: "in the derivative routing alike": with a per-sample parameter batch and a derivative specification whose mask dictionary
+    is written in another key order than the parameters, every (term, parameter) pair is still routed as specified"""
+    from .C06 import occurrences, TERMS, CONF, DK, GROUPS
+    from ..lossenv import SingleLoss
+    from .C03 import scalar_of
+    chk.rule("C12.R9", "derivative routing with a per-sample parameter batch: each parameter of each term is behind stop_gradient "
+                       "iff not selected, whatever the key order of the mask", floor=3)
+    Params = E.Params
+    for eq_type, terms in TERMS.items():
+        def go(eq_type=eq_type, terms=terms):
+            dkcls = E.cls(E.mod_dk, DK[eq_type])
+            conf = tuple(CONF[t] for t in terms if t != 'norm_loss')
+            used = [t for t in terms if t != 'norm_loss']
+            n = 0
+            for order in (('nu', 'th'), ('th', 'nu')):
+                sel = {t: {'nn_params': True, 'nu': (i % 2 == 0), 'th': (i % 2 == 1)} for i, t in enumerate(terms)}
+                masks = {t: Params.make(nn_params=sel[t]['nn_params'], eq_params={k: sel[t][k] for k in order}) for t in terms}
+                S = SingleLoss(E, eq_type, 'PINN', d=2, m_u=1, m_res=1, terms=conf, eq_keys=('nu', 'th'), derivative_keys=dkcls(**masks))
+                total, out = S.evaluate(param_keys=('nu',))
+                for t in used:
+                    occ = occurrences(scalar_of(out[t], t))
+                    for g_, flags in occ.items():
+                        if g_ not in GROUPS:
+                            continue
+                        want_sg = not sel[t][g_]
+                        if flags != {want_sg}:
+                            raise Violation(f"{t}/{g_}", f"mask keys in order {list(order)}, batched key nu: occurrences of {g_} in {t} have "
+                                            f"stop_gradient marks {sorted(flags)}", f"all {'behind' if want_sg else 'outside'} stop_gradient")
+                        n += 1
+            return f"{n} (term, parameter) occurrences routed as specified for both key orders"
+        chk.run("C12.R9", {"ODE": "jinns.loss._LossODE:LossODE.evaluate", "statio_PDE": "jinns.loss._LossPDE:LossPDEStatio.evaluate",
+                           "nonstatio_PDE": "jinns.loss._LossPDE:LossPDENonStatio.evaluate"}[eq_type] + "->_set_derivatives",
+                {"loss": eq_type, "param_batch": ["nu"]}, go, construct=f"routing with a parameter batch[{eq_type}]")
